@@ -66,6 +66,11 @@ def field_routes():
     R.append(("super.q measured, then a gate through this.q", sup % "measure super.q; x(this.q); echo(\"gated\");", "refused"))
     R.append(("q measured, then a gate through super.q", sup % "measure q; x(super.q); echo(\"gated\");", "refused"))
     R.append(("super.q measured, reset, then a gate", sup % "measure super.q; reset super.q; x(super.q); echo(\"ok\");", "runs:ok\n"))
+    # a local declared through a type parameter bound to qubit is a qubit like a field declared that way
+    gen = ("class G<T> { public constructor() -> G<T> { }\n  public function go() -> void { T w; %s } }\n"
+           "function main() -> void { G<qubit> g = new G<qubit>(); g.go(); g.go(); }")
+    R.append(("local of type T = qubit, never measured: accepts a measurement", gen % "bit b = measure w; echo(b);", "runs:0\n0\n"))
+    R.append(("local of type T = qubit, measured twice", gen % "measure w; measure w; echo(\"again\");", "refused"))
     # a measurement written once inside an array literal in expression position happens once
     lit = "function show(bit[] b) -> void { echo(b[0]); }\nfunction main() -> void { qubit q; x(q); %s }"
     R.append(("measure as the first element of an array-literal argument", lit % "show({measure q});", "runs:1\n"))
